@@ -143,6 +143,17 @@ func (f *Frame) run(st *State, reach Term) {
 				bst = loop.hstate.derive()
 			}
 		}
+		// a phi carries the source name of the variable it merges: from here on that
+		// name means the phi (until a later debug reference says otherwise)
+		for _, ins := range b.Instrs {
+			phi, ok := ins.(*ssa.Phi)
+			if !ok {
+				break
+			}
+			if _, has := f.vals[phi]; has && phi.Comment != "" && phi.Comment != "rangeindex" {
+				f.recordName(phi.Comment, phi, b)
+			}
+		}
 		f.reach[b] = br
 		f.execBlock(b, bst, br)
 	}
@@ -271,13 +282,24 @@ func (f *Frame) execInstr(ins ssa.Instruction, st *State, reach Term) {
 			if f.vc.failed == nil {
 				f.vc.failed = fmt.Errorf("%s: at %s (%s): %v", funcKey(f.fn), f.pos(ins.Pos()), ins.String(), r)
 			}
+			return
+		}
+		// a value sequence defined inside a loop: the version the loop havocked at its
+		// head (element updates are recorded per value) is that of the previous iteration
+		if v, isV := ins.(ssa.Value); isV && st != nil {
+			if _, isPhi := ins.(*ssa.Phi); !isPhi {
+				if t, isT := f.vals[v].(Term); isT && strings.HasPrefix(t.Sort, "Seq_") {
+					f.vc.compSrt[f.verKey(v)] = t.Sort
+					st.set(f.verKey(v), t)
+				}
+			}
 		}
 	}()
 	switch x := ins.(type) {
 	case *ssa.DebugRef:
 		if id, ok := x.Expr.(interface{ String() string }); ok && x.Object() != nil {
 			_ = id
-			f.names[x.Object().Name()] = append(f.names[x.Object().Name()], x.X)
+			f.recordName(x.Object().Name(), x.X, x.Block())
 		}
 	case *ssa.Phi:
 		// handled at block entry
@@ -359,6 +381,10 @@ func (f *Frame) execInstr(ins ssa.Instruction, st *State, reach Term) {
 		f.mapUpdate(x, st, reach)
 	case *ssa.Range:
 		f.vals[x] = f.term(x.X, st)
+		if mt, isMap := x.X.Type().Underlying().(*types.Map); isMap {
+			ks := f.vc.sorts.sortOf(mt.Key())
+			st.set(f.rangeKey(x, ks), T(fmt.Sprintf("(Array %s Bool)", ks), "((as const (Array %s Bool)) false)", ks))
+		}
 	case *ssa.Next:
 		f.execNext(x, st)
 	case *ssa.Slice:
